@@ -120,6 +120,7 @@ type Result struct {
 	Violations  []Violation `json:"violations,omitempty"`
 	ToolErr     string      `json:"toolerr,omitempty"`
 	Inconcl     string      `json:"inconclusive,omitempty"`
+	Crashed     string      `json:"crashed,omitempty"` // worker process died or timed out while executing
 	Counters    map[string]int64 `json:"counters,omitempty"`
 }
 
@@ -202,6 +203,9 @@ func (s *Stats) Absorb(prefix []Point, r *Result, dev int) {
 	}
 	if r.ToolErr != "" && len(s.ToolErrs) < 20 {
 		s.ToolErrs = append(s.ToolErrs, r.ToolErr)
+	}
+	if r.Crashed != "" && r.Inconcl == "" && len(r.Violations) == 0 && len(s.ToolErrs) < 20 {
+		s.ToolErrs = append(s.ToolErrs, "worker crashed: "+r.Crashed)
 	}
 	if r.Inconcl != "" {
 		s.Inconcl++
